@@ -7,7 +7,7 @@ From Coq Require Import List NArith.
 Local Open Scope string_scope.
 Local Open Scope list_scope.
 Import ListNotations.
-From UV Require Import Py.Val Py.Str Py.Utf8 Py.UrlLib Py.Pct Gen.Tables Ural.Quote Spec.C14 Proofs.QuoteFacts Proofs.UnquoteFacts Proofs.UnquoteAscii Proofs.UnquoteRuns Proofs.UnquoteHigh.
+From UV Require Import Py.Val Py.Str Py.Utf8 Py.UrlLib Py.Pct Gen.Tables Ural.Quote Spec.C14 Proofs.QuoteFacts Proofs.UnquoteFacts Proofs.UnquoteAscii Proofs.UnquoteRuns Proofs.TokenFacts Proofs.UnquoteHigh Proofs.UnquoteIdem.
 
 (* safely_quote: pure ASCII, every pre-existing escape kept, everything else escaped unless
    unreserved or '/'; hence same decoded bytes; quoting twice = quoting once *)
@@ -81,6 +81,26 @@ Theorem C14_unquote_general : forall (unsafe required : list N) (s : str),
   unquote_ok required s (safely_unquote unsafe s) = true.
 Proof. intros unsafe required s H1 H2 H3 H4. exact (safely_unquote_ok unsafe required H1 H2 H3 s H4). Qed.
 
+(* ... and is idempotent, for every string *)
+Theorem C14_unquote_idempotent : forall s,
+  safely_unquote_auth_item (safely_unquote_auth_item s) = safely_unquote_auth_item s /\
+  safely_unquote_path (safely_unquote_path s) = safely_unquote_path s /\
+  safely_unquote_query_item (safely_unquote_query_item s) = safely_unquote_query_item s /\
+  safely_unquote_fragment (safely_unquote_fragment s) = safely_unquote_fragment s.
+Proof. exact four_unquoters_idem. Qed.
+
+Theorem C14_unquote_idempotent_general : forall (unsafe : list N) (s : str),
+  mem 37%N unsafe = true -> mem 32%N unsafe = true ->
+  safely_unquote unsafe (safely_unquote unsafe s) = safely_unquote unsafe s.
+Proof. intros unsafe s H1 H2. exact (safely_unquote_idem unsafe H1 H2 s). Qed.
+
+(* the model's output as a function of the input's tokens: one pass of the token machine `TM` (state: what the
+   would-complete guard sees of the output so far, and the pending escapes >= %80), then raw spaces become %20 *)
+Theorem C14_unquote_functional : forall (unsafe : list N) (s : str),
+  mem 37%N unsafe = true ->
+  tokens (safely_unquote unsafe s) = map sp_tok (TM unsafe flushT G0 [] (tokens s)).
+Proof. intros unsafe s H. exact (safely_unquote_tokens unsafe H s). Qed.
+
 Example C14_examples :
   safely_unquote_path (lit "%2541") = lit "%2541" /\
   safely_unquote_path (lit "%4%31") = lit "%4%31" /\
@@ -107,4 +127,7 @@ Print Assumptions C14_delims_ok.
 Print Assumptions C14_unquote_no_raw_space.
 Print Assumptions C14_unquote.
 Print Assumptions C14_unquote_general.
+Print Assumptions C14_unquote_idempotent.
+Print Assumptions C14_unquote_idempotent_general.
+Print Assumptions C14_unquote_functional.
 Print Assumptions C14_unquote_plain_text.
